@@ -321,6 +321,11 @@ class Model:
                 raise Violation(self.ctx('tell-ahead'), f'tell() = {pos!r} (record index {p}) lies past record '
                     f'{chr(65 + y)} which is on disk and was not delivered: resuming there skips it [{self.describe()}]')
 
+        if p < self.floor and any(self.files[self.rec_file[y]].gone is None for y in range(p, self.floor)):
+            raise Violation(self.ctx('reader-seek-lands-before-position'), f'tell() = {pos!r} (record index {p}) although the reader '
+                f'had been positioned by seek(saved tell()) just before record index {self.floor}: the seek went to an earlier '
+                f'place, records before the saved position will be delivered again [{self.describe()}]')
+
         for y in range(p, self.last + 1):
             if self.files[self.rec_file[y]].gone is None:
                 raise Violation(self.ctx('tell-behind'), f'tell() = {pos!r} (record index {p}) lies before record '
